@@ -7,7 +7,7 @@ E2/E3: month-year / year-only / full-date strings through the real API (absolute
 
 import calendar
 
-from .. import absfam, core
+from .. import absfam, core, neighbours
 
 LEVEL = "model_checking"
 PREFS = ["first", "last", "current"]
@@ -70,6 +70,8 @@ def make_cases(ctx):
             r = rng.random()
             dec = ["#%Y", "#%B %Y", "#%Y-%m", "#%d %B %Y", "#%d", "#%H:%M"]
             kw["date_formats"] = [fmt] if r < 0.4 else (rng.sample(dec, rng.randint(1, 3)) + [fmt] + (rng.sample(dec, 1) if r > 0.8 else []))
+        # settings that must be irrelevant: a REQUIRE_PARTS the string meets, defaults spelled out
+        st.update(neighbours.bystanders(rng, {"my": ("month", "year"), "y": ("year",), "full": ("day", "month", "year")}[parts]))
         cases.append({"parser": parser, "parts": parts, "y": y, "m": m, "d": d, "tm": tm or [0, 0, 0],
                       "hasTime": tm is not None, "pdom": pd, "pmoy": pm, "ref": list(ref) + [10, 30, 0, 0] if ref else [],
                       "rtap": rtap, "s": s, "kw": kw, "settings": st, "api": "ddp", "probe": parser == "abs"})
